@@ -290,7 +290,7 @@ func (s StrictProtoCodec) MarshalAppend(b []byte, msg any) ([]byte, error) {
 	if !ok {
 		return nil, fmt.Errorf("message type %T is not a proto.Message", msg)
 	}
-	return protojson.MarshalOptions{}.MarshalAppend(b, protoMsg)
+	return proto.MarshalOptions{}.MarshalAppend(b, protoMsg)
 }
 
 func (s StrictProtoCodec) MarshalStable(msg any) ([]byte, error) {
